@@ -62,6 +62,25 @@ func c07Eval(s []byte, rets ...*retained) (string, string) {
 	if string(rs.ToBytes()) != string(s) || string(rb.ToString()) != string(s) || string(rs.ToBytes().ToString()) != string(s) {
 		return "conversion", fmt.Sprintf("ToBytes/ToString do not round-trip %q", s)
 	}
+	if len(s) > 0 {
+		// a string handed out must never change: not when the byte slice it was converted from is written to
+		// afterwards, and a byte slice handed out must be the caller's to write to
+		in := append([]byte(nil), s...)
+		str := redact.RedactableBytes(in).ToString()
+		keep := clone(string(str))
+		for i := range in {
+			in[i] = 'Z'
+		}
+		if string(str) != keep {
+			return "conversion-aliases-input", fmt.Sprintf("RedactableBytes(%q).ToString() changed to %q when the byte slice was written to afterwards", s, str)
+		}
+		src := redact.RedactableString(append([]byte(nil), s...))
+		tb := src.ToBytes()
+		tb[0] ^= 0xff
+		if string(src) != string(s) {
+			return "conversion-aliases-input", fmt.Sprintf("writing to RedactableString(%q).ToBytes() changed the string to %q", s, src)
+		}
+	}
 	if rd2 := rd.Redact(); rd2 != rd {
 		return "redact-not-idempotent", fmt.Sprintf("Redact(%q) = %q, again = %q", s, rd, rd2)
 	}
